@@ -318,6 +318,21 @@ type Net struct {
 	AppFor  func(idx int) (consensus.BlockChainApp, *ScriptApp) // how a node gets its application
 	PoolFor func(idx int) consensus.Mempool                     // and its mempool (nil = MockMempool)
 	StatusF func(idx int) dbm.DB
+	// genuine: every vote a validator's key was really asked to sign (by a correct node through its signer, by the harness for
+	// a validator it plays), by content.  The oracles decide "validly signed" from these books, not by running the verifier.
+	genuine map[string]bool
+}
+
+func voteKey(v *types.Vote) string {
+	return fmt.Sprintf("%x|%d|%d|%d|%s", []byte(v.ValidatorAddress), v.Type, v.Height, v.Round, v.BlockID.String())
+}
+
+// MarkGenuine records that the validator named in v signed exactly this content.
+func (n *Net) MarkGenuine(v *types.Vote) {
+	if n.genuine == nil {
+		n.genuine = map[string]bool{}
+	}
+	n.genuine[voteKey(v)] = true
 }
 
 // TypesVals converts the key list into a validator list.
@@ -393,7 +408,12 @@ func (n *Net) AddNode(idx int) (*Node, error) {
 	}
 	nd.CS.SetEventBus(nd.Bus)
 	nd.PV = &RecPV{Key: n.Vals[idx]}
-	nd.PV.OnSign = func(r SignReq) { nd.Events = append(nd.Events, Event{Kind: "sign", Vote: r.Vote, Prop: r.Proposal}) }
+	nd.PV.OnSign = func(r SignReq) {
+		nd.Events = append(nd.Events, Event{Kind: "sign", Vote: r.Vote, Prop: r.Proposal})
+		if r.Vote != nil {
+			n.MarkGenuine(r.Vote)
+		}
+	}
 	nd.CS.SetPrivValidator(nd.PV)
 	nd.Ticker = consensus.NewVerifTicker()
 	nd.CS.SetTimeoutTicker(nd.Ticker)
@@ -525,6 +545,7 @@ func (n *Net) SignedVote(idx int, typ byte, height uint64, round int, id types.B
 	}
 	sig, _ := n.Vals[idx].Priv.Sign(v.SignBytes(ChainID))
 	v.Signature = sig
+	n.MarkGenuine(v)
 	return v
 }
 
@@ -639,7 +660,9 @@ func (n *Net) ValidVote(v *types.Vote) bool {
 	if val == nil || string(addr) != string(v.ValidatorAddress) {
 		return false
 	}
-	return val.PubKey.VerifyBytes(v.SignBytes(ChainID), v.Signature)
+	// from the books: the validator was asked to sign exactly this content (a signature that verifies over OTHER content - a
+	// relabelled vote type, say - does not make a vote genuine, whatever the verifier under test thinks of it)
+	return n.genuine[voteKey(v)]
 }
 
 // Commits returns, per height, the set of hashes the correct nodes committed.
